@@ -80,14 +80,20 @@ def split_args(s):
 CALL = re.compile(r'^(\w+)\((.*)\)\s*=\s*(-?\d+|\?)(.*)$')
 
 
-def parse_log(path):
-    """-> (calls, pending, killed)  calls: list of dict(pid,name,args,ret,ord,injected) in completion order"""
+def parse_log(path, kills=()):
+    """-> (calls, pending, killed)  calls: list of dict(pid,name,args,ret,ord,injected) in completion order.
+    kills: (name, per-thread ordinal) pairs at which SIGKILL is injected.  From the moment such a call is entered the
+    whole process is dying: what strace prints afterwards about calls of other threads (results read from the registers
+    of dying threads) is not reliable, so every call that completes after that point has an unknown result."""
     pending, calls, killed = {}, [], False
     ords = {}
+    dying = [False]
 
     def entry(pid, text):
         name = text.split('(', 1)[0]
         ords[(pid, name)] = ords.get((pid, name), 0) + 1
+        if (name, ords[(pid, name)]) in kills:
+            dying[0] = True
         return ords[(pid, name)]
 
     entry_ord = {}
@@ -122,7 +128,7 @@ def parse_log(path):
         if not mc:
             raise vlib.Infra('strace: cannot parse line: ' + raw[:300])
         name, args, ret, tail = mc.group(1), split_args(mc.group(2)), mc.group(3), mc.group(4)
-        if re.match(r'^\s*\(errno \d+\)', tail):
+        if dying[0] or re.match(r'^\s*\(errno \d+\)', tail):
             ret = '?'           # registers of a dying thread: the call was in progress when the process was killed
         calls.append(dict(pid=pid, name=name, args=args, ret=None if ret == '?' else int(ret), ord=o,
                           injected='INJECTED' in tail))
@@ -367,7 +373,12 @@ class Runner:
             raise vlib.Infra('strace run timed out: %s' % sc['argv'])
         if not os.path.exists(log):
             raise vlib.Infra('strace produced no log: %s' % r.stderr[-500:])
-        calls, pend, killed = parse_log(log)
+        kills = set()
+        for i in inject:
+            m = re.match(r'^(\w+):signal=SIGKILL:when=(\d+)$', i)
+            if m:
+                kills.add((m.group(1), int(m.group(2))))
+        calls, pend, killed = parse_log(log, kills)
         conv = Conv(root)
         events = []
         for c in calls:
@@ -386,14 +397,9 @@ class Runner:
         final = snapshot(root)
         # calls without a result: the one the kill was injected at has NOT been executed (killed at entry); a call another
         # thread was inside at that moment may or may not have taken effect -> the snapshot comparison is fuzzy
-        kills = set()
-        for i in inject:
-            m = re.match(r'^(\w+):signal=SIGKILL:when=(\d+)$', i)
-            if m:
-                kills.add((m.group(1), int(m.group(2))))
         fuzzy = any(p['name'] in Conv.MUT for p in pend) or \
             any(c['ret'] is None and c['name'] in Conv.MUT and (c['name'], c['ord']) not in kills for c in calls)
-        rawlog = open(log, errors='replace').read() if os.environ.get('VERIF_DEBUG') else ''
+        rawlog = open(log, errors='replace').read()
         os.remove(log)
         if not os.environ.get('VERIF_KEEP'):
             shutil.rmtree(root, ignore_errors=True)
@@ -456,11 +462,15 @@ def validate(ctx, runs, tag):
                 brief = [dict((k, (c19.b2s(v) if isinstance(v, list) and k in ('a', 'b') else v)) for k, v in l.items()
                               if k not in ('sc', 'lib', 'data', 'final')) for l in lines]
                 snap = [(c19.b2s(e['p']), e['k'], len(e['c'])) for e in lines[-1]['final']]
-                raise vlib.Infra('run %s: %s\n  describe: %s\n  events: %s\n  disk: %s' % (rid, w, describe_run(rid), brief, snap))
+                tail = [x[:230] for x in RUN_LOG.get(rid, '').splitlines() if 'SIGURG' not in x and '\\x2f\\x73\\x79\\x73' not in x
+                        and '\\x2f\\x70\\x72\\x6f\\x63' not in x][-70:]
+                raise vlib.Infra('run %s: %s\n  describe: %s\n  events: %s\n  disk: %s\n  strace tail:\n%s' % (
+                    rid, w, describe_run(rid), brief, snap, '\n'.join(tail)))
     return {k: sorted(v) for k, v in rej.items()}, total
 
 
 RUN_META = {}
+RUN_LOG = {}
 
 
 def describe_run(rid):
@@ -498,6 +508,10 @@ def scenarios(ctx):
     add('sync', d, False, inputs=['d/'], output='out/', r=True, s=True)
     add('sync-inplace-v', d, True, inputs=['d/'], output='d/', r=True, s=True, v=True)
     add('sync-v', {'d/a.js': js, 'd/n.txt': 'n  n\n'}, True, inputs=['d/'], output='out/', r=True, s=True, v=True)
+    # the destination is the source under another name (C19 objects to the backup left behind; nothing may be lost)
+    add('alias-hardlink', {'a.js': js, 'g.js': ('h', 'a.js')}, True, inputs=['a.js'], output='g.js')
+    add('alias-linktarget', {'a.js': js, 'l.js': ('l', 'a.js')}, True, inputs=['l.js'], output='a.js')
+    add('alias-dirlink', {'d/c.js': js, 'd/k.css': 'a { top : 0 }', 'dl': ('l', 'd')}, True, inputs=['d/'], output='dl/', r=True, v=True)
     if not q:
         add('inplace-huge', {'a.js': huge}, True, inputs=['a.js'], output='a.js')
         add('inplace-css', {'s.css': 'a { color : red ; }\n'}, True, inputs=['s.css'], output='s.css')
@@ -535,6 +549,7 @@ def run(ctx):
     cli = vlib.build_cli(ctx)
     quick = ctx.quick()
     vlib.tlc_mc(ctx, 'CliFs', 'CliFs_quick.cfg' if quick else 'CliFs_thorough.cfg', workers=min(8, vlib.JOBS), heap='4g', timeout=3000)
+    c19.tick(ctx, 'design model checked')
     ctx.coverage['design_counterexamples'] = dict(
         stale_bak_clobbered_OthersUntouched=design_counterexample(ctx, 'CliFs_bak.cfg', 'OthersUntouched'),
         bak_is_an_input_NeverLost=design_counterexample(ctx, 'CliFs_bakinput.cfg', 'NeverLost'))
@@ -552,9 +567,10 @@ def run(ctx):
         p = plans[i]
         if p['unspec'] or p['hazard']:
             raise vlib.Infra('scenario %s is not determined by the documentation: %s %s' % (s['name'], p['unspec'], p['hazard']))
-        if p['known'] and not s.get('pinned'):
+        if set(p['known']) - {'alias'} and not s.get('pinned'):
             raise vlib.Infra('scenario %s contains a known-defect construct' % s['name'])
         c19.complete(s['sc'], p, ctx.rnd)
+    c19.tick(ctx, 'plans rendered')
     runner = Runner(ctx, exe, cli)
     jobs = []                    # (scenario index, inject tuple, kind)
     # reference runs first (they define the boundaries)
@@ -589,6 +605,7 @@ def run(ctx):
                     jobs.append((i, (f, '%s:signal=SIGKILL:when=%d' % (name, o)), 'fault+kill'))
     with ThreadPoolExecutor(max_workers=min(8, vlib.JOBS)) as ex:
         results = list(ex.map(lambda j: runner.run(S[j[0]]['sc'], j[1]), jobs))
+    c19.tick(ctx, '%d injected runs done' % len(jobs))
     runs, meta = [], {}
     for i, (s, ref) in enumerate(zip(S, refs)):
         rid = 'ref-%d' % i
@@ -601,13 +618,12 @@ def run(ctx):
         runs.append((rid, trace_of(rid, S[j[0]]['sc'], res)))
         meta[rid] = j
         RUN_META[rid] = '%s %s inject=%s killed=%s fuzzy=%s rc=%s' % (S[j[0]]['name'], S[j[0]]['sc']['argv'], j[1], res['killed'], res['fuzzy'], res['rc'])
-        if os.environ.get('VERIF_DEBUG'):
-            os.makedirs('/tmp/c20-debug', exist_ok=True)
-            open('/tmp/c20-debug/%s.strace' % rid, 'w').write(res['rawlog'])
+        RUN_LOG[rid] = res['rawlog']
         if res['killed']:
             kills_done += 1
             kill_points.add((j[0], len(res['events'])))
     rejected, nlines = validate(ctx, runs, 'main')
+    c19.tick(ctx, 'validated %d states of %d runs, %d rejected' % (nlines, len(runs), len(rejected)))
     # every rejected run is repeated in a fresh process (up to 3 times: parallel workers are scheduled differently each time)
     reproduced = 0
     todo = sorted(rejected)[:60]
